@@ -61,11 +61,16 @@ def run_scenarios(prop):
         entry = {'name': 'scenario:' + path, 'what': what, 'bounded': True, 'wall_s': w.get('wall_s'), 'backends': ['cargo-test (bounded)'],
                  'obligations': 0, 'discharged': 0, 'samples': ['bounded scenario sweep %s: %s' % (path, what)],
                  'trusted': ['bounded: covers only the stated input space']}
+        known = [k for k in w.get('known', []) if k.get('scenario') == path]
+        if known:
+            entry['known_findings'] = [{'id': k['finding'].get('id'), 'what': k['finding'].get('what'), 'test': k['test']} for k in known]
         if failed:
             f0 = failed[0]
             entry['verdict'] = 'failed'
             entry['violations'] = [{'unit': 'scenario', 'fn': path, 'key': 'bounded:' + f0['test'], 'kind': 'bounded-scenario', 'label': None, 'props': [prop],
                                     'message': 'bounded scenario sweep fails on the real code', 'spans': [], 'src': None, 'rendered': f0['output']}]
+        elif known:
+            entry['verdict'] = 'known finding reproduced (bounded)'
         elif w.get('inconclusive') or not w.get('ran'):
             entry['verdict'] = 'inconclusive'
             entry['undecided'] = ['scenario %s did not run: %s' % (path, w.get('inconclusive'))]
@@ -119,6 +124,8 @@ def run_library_thorough(prop):
              'bounded': True, 'wall_s': w.get('wall_s'), 'backends': ['cargo-test (bounded)'], 'obligations': 0, 'discharged': 0,
              'files': w.get('files'), 'ran': w.get('ran'), 'passed': w.get('passed'), 'samples': ['bounded scenario library for %s' % prop],
              'trusted': ['bounded: covers only the stated input spaces']}
+    if w.get('known'):
+        entry['known_findings'] = [{'id': k['finding'].get('id'), 'what': k['finding'].get('what'), 'test': k['test']} for k in w['known']]
     if w.get('failed'):
         f0 = w['failed'][0]
         entry['verdict'] = 'failed'
